@@ -1,4 +1,4 @@
-//@ unit u2b_ingest props C02 also C17
+//@ unit u2b_ingest props C02 also C17 C11 C03
 // Unit U2b: the first filter of rows received from a peer (src/database/graph_database.rs: GraphDatabase::add_nodes and
 // add_edges), in front of the authorisation actor (unit u2_verdicts).  A received node goes on to authorisation only if it
 // carries a row, that row is stored in the room being synchronised, it is of the same entity as the stored row it would replace, its entity is known to the data model and its content
@@ -46,7 +46,7 @@ pub uninterp spec fn spec_fts(json: Seq<char>) -> Seq<char>;
 pub fn fts_string(json_str: &String) -> (r: std::result::Result<String, DbError>)
     ensures r is Ok <==> fts_ok(json_str@), r is Ok ==> r->Ok_0@ == spec_fts(json_str@)
 { unimplemented!() }
-pub struct GraphDatabase { pub data_model: DataModel, x: u8 }
+pub struct GraphDatabase { pub data_model: DataModel, pub x: u8 }
 /// what the index must hold for a received row: its current text when the entity is indexed, nothing otherwise
 pub open spec fn expected_fts(e: Entity, json: Option<String>) -> Option<Seq<char>> {
     if e.enable_full_text && json is Some { Some(spec_fts(json->Some_0@)) } else { None }
@@ -95,6 +95,65 @@ pub open spec fn entity_of(dm: DataModel, n: NodeToInsert) -> Entity { spec_enti
             // [received_edge_passes_only_if_entity_known]{C02} a reference received from a peer goes on to authorisation, with the full name of its source entity, only if that entity is known; otherwise its source id is reported as rejected
             spec_name_for(self.data_model, edge.src_entity@) is Some ==> final(invalid_edges)@ == old(invalid_edges)@ && final(valid_edges)@ == old(valid_edges)@.push((edge, spec_name_for(self.data_model, edge.src_entity@)->Some_0)),
             spec_name_for(self.data_model, edge.src_entity@) is None ==> final(valid_edges)@ == old(valid_edges)@ && final(invalid_edges)@ == old(invalid_edges)@.push(edge.src),
+//@ end
+// ================================================================= deletion records received from a peer, on their way to the authorisation service (C11, C03)
+//@ extract src/database/node.rs :: struct NodeDeletionEntry
+//@ end
+//@ extract src/database/edge.rs :: struct EdgeDeletionEntry
+//@ end
+pub struct Sender<T> { x: Option<T> }
+pub type Result<T> = std::result::Result<T, DbError>;
+/// the batch was handed to the reader thread (which attaches the stored authors and passes it to the authorisation service): facts
+/// only the two stubs below establish
+pub uninterp spec fn node_deletions_handed_on(batch: Seq<NodeDeletionEntry>) -> bool;
+pub uninterp spec fn edge_deletions_handed_on(batch: Seq<EdgeDeletionEntry>) -> bool;
+impl GraphDatabase {
+    // E9: `let auth_service = ..; let _ = self.graph_database.reader.send_async(Box::new(move |conn| { .. })).await;` - the hand-over of the
+    // batch to the reader thread (a boxed closure; what it does with the batch is under contract in units u2_verdicts / u5_marks)
+    #[verifier::external_body]
+    pub async fn hand_node_deletions_to_reader(&self, nodes: Vec<NodeDeletionEntry>, reply: Sender<Result<()>>) -> (r: bool) ensures node_deletions_handed_on(nodes@) { unimplemented!() }
+    #[verifier::external_body]
+    pub async fn hand_edge_deletions_to_reader(&self, edges: Vec<EdgeDeletionEntry>, reply: Sender<Result<()>>) -> (r: bool) ensures edge_deletions_handed_on(edges@) { unimplemented!() }
+}
+pub open spec fn node_record_named(dm: DataModel, r: NodeDeletionEntry, h: NodeDeletionEntry) -> bool { h == (NodeDeletionEntry { entity_name: spec_name_for(dm, r.entity@), ..r }) }
+pub open spec fn edge_record_named(dm: DataModel, r: EdgeDeletionEntry, h: EdgeDeletionEntry) -> bool { h == (EdgeDeletionEntry { entity_name: spec_name_for(dm, r.src_entity@), ..r }) }
+
+//@ extract src/database/graph_database.rs :: impl GraphDatabase / fn delete_nodes
+//@ attr #[verifier::exec_allows_no_decreases_clause]
+//@ rewrite E9 "(?s)let auth_service = self\.auth_service\.clone\(\);\s*let _ = self\s*\.graph_database\s*\.reader\s*\.send_async\(.*\)\s*\.await;" => "let _ = self.hand_node_deletions_to_reader(nodes, reply).await;" x1
+//@ rewrite E17 "(?<=for node in )&mut nodes(?= \{)" => "nodes.iter_mut()" x1
+//@ rewrite E9 "mut nodes: Vec<NodeDeletionEntry>" => "nodes0: Vec<NodeDeletionEntry>" x1
+//@ insert body-start
+        let mut nodes = nodes0;   // E9: `mut nodes` parameter of the async fn
+//@ loop "for node in" iter it
+            invariant it.seq().len() == nodes0@.len(), forall|i: int| 0 <= i < it.seq().len() ==> *(#[trigger] it.seq()[i]) == nodes0@[i],
+                forall|i: int| 0 <= i < it.index@ ==> node_record_named(self.data_model, *(#[trigger] it.seq()[i]), *final(it.seq()[i])),
+//@ insert after-stmt "for node in &mut nodes"
+        assert(nodes@.len() == nodes0@.len() && forall|i: int| 0 <= i < nodes@.len() ==> node_record_named(self.data_model, #[trigger] nodes0@[i], nodes@[i]));
+//@ spec
+        ensures
+            // [every_received_row_deletion_goes_on_to_authorisation]{C11,C03} every row deletion record of a received batch is handed on towards the authorisation service - none is dropped or altered on the way, whatever its dates: only the full entity name is filled in
+            exists|h: Seq<NodeDeletionEntry>| #[trigger] node_deletions_handed_on(h) && h.len() == nodes0@.len()
+                && forall|i: int| 0 <= i < h.len() ==> node_record_named(self.data_model, #[trigger] nodes0@[i], h[i]),
+//@ end
+
+//@ extract src/database/graph_database.rs :: impl GraphDatabase / fn delete_edges
+//@ attr #[verifier::exec_allows_no_decreases_clause]
+//@ rewrite E9 "(?s)let auth_service = self\.auth_service\.clone\(\);\s*let _ = self\s*\.graph_database\s*\.reader\s*\.send_async\(.*\)\s*\.await;" => "let _ = self.hand_edge_deletions_to_reader(edges, reply).await;" x1
+//@ rewrite E17 "(?<=for edge in )&mut edges(?= \{)" => "edges.iter_mut()" x1
+//@ rewrite E9 "mut edges: Vec<EdgeDeletionEntry>" => "edges0: Vec<EdgeDeletionEntry>" x1
+//@ insert body-start
+        let mut edges = edges0;   // E9: `mut edges` parameter of the async fn
+//@ loop "for edge in" iter it
+            invariant it.seq().len() == edges0@.len(), forall|i: int| 0 <= i < it.seq().len() ==> *(#[trigger] it.seq()[i]) == edges0@[i],
+                forall|i: int| 0 <= i < it.index@ ==> edge_record_named(self.data_model, *(#[trigger] it.seq()[i]), *final(it.seq()[i])),
+//@ insert after-stmt "for edge in &mut edges"
+        assert(edges@.len() == edges0@.len() && forall|i: int| 0 <= i < edges@.len() ==> edge_record_named(self.data_model, #[trigger] edges0@[i], edges@[i]));
+//@ spec
+        ensures
+            // [every_received_reference_deletion_goes_on_to_authorisation]{C11,C03} the same for reference deletion records
+            exists|h: Seq<EdgeDeletionEntry>| #[trigger] edge_deletions_handed_on(h) && h.len() == edges0@.len()
+                && forall|i: int| 0 <= i < h.len() ==> edge_record_named(self.data_model, #[trigger] edges0@[i], h[i]),
 //@ end
 } // verus!
 fn main() {}
